@@ -163,6 +163,17 @@ def run_case(case):
             if (float(xi), float(yi)) != (xf, yf) or (float(bi[0]), float(bi[1])) != (float(bf[0]), float(bf[1])):
                 viol.append({"what": "integer_typed_degrees_change_the_result", "type": T.__name__, "args": (la_i, lo_i, rla, rlo),
                              "got": (float(xi), float(yi)), "expected": (xf, yf)})
+    # single-precision inputs (station tables stored as float32): a float32 number is exactly a double, so the result must be the one the
+    # double-typed call of the same values gives (forward map to 1e-6 m, inverse to 1e-9 degree is asserted on the double result only)
+    for _ in range(20):
+        rla, rlo = np.float32(rng.uniform(-60, 60)), np.float32(rng.uniform(-179, 179))
+        la_s, lo_s = np.float32(float(rla) + rng.uniform(-0.003, 0.003)), np.float32(float(rlo) + rng.uniform(-0.003, 0.003))
+        xs, ys = latlon_to_xy(la_s, lo_s, rla, rlo)
+        xd, yd = latlon_to_xy(float(la_s), float(lo_s), float(rla), float(rlo))
+        counters["points"] += 1
+        if not (abs(float(xs) - xd) <= 1e-6 and abs(float(ys) - yd) <= 1e-6):
+            viol.append({"what": "single_precision_typed_degrees_change_the_result", "args": (float(la_s), float(lo_s), float(rla), float(rlo)),
+                         "got": (float(xs), float(ys)), "expected": (xd, yd)})
     # arrays through the inverse (its documented vectorised form) equal the scalar calls
     arr = np.array([(p[2], p[3]) for p in pts[:50]])
     lat0, lon0 = pts[1][0], pts[1][1]
